@@ -174,6 +174,21 @@ pub fn gen(r: &mut Rng, thorough: bool, count: Option<usize>) -> Vec<Value> {
         let (from, to) = if i % 5 == 4 { (json!("no-such-profile"), json!("fresh-profile")) } else { (from, to) };
         push(&mut out, case(0, page, src, dst, json!({"op": "copy_profile", "from": from, "to": to, "same": false, "method": methods_q[i % 2]}), Value::Null, rr.chance(1, 2)));
     }
+    // (b2) non-empty targets that hold records of ONE kind only (only key records / only items), identities disjoint from the
+    //      source's: "copying into a non-empty profile is refused" whatever the records are
+    for i in 0..(4 * mult) {
+        let mut rr = r.fork();
+        let np = 1 + rr.below(2);
+        let src = gen_store_spec(&mut rr, page, np, false, false);
+        let from = src["profiles"][0]["name"].clone();
+        let mut dst = gen_store_spec(&mut rr, page, 1, false, true);
+        let k = 1 + rr.below(3);
+        let mut recs = gen_recs(&mut rr, k, false);
+        for (j, x) in recs.iter_mut().enumerate() { x["k"] = json!(if i % 2 == 0 { 1 } else { 2 }); x["n"] = json!(format!("only-{}-{}", if i % 2 == 0 { "kms" } else { "item" }, j)); x["e"] = Value::Null; }
+        dst["profiles"][0]["recs"] = Value::Array(recs);
+        let to = dst["profiles"][0]["name"].clone();
+        push(&mut out, case(0, page, src, dst, json!({"op": "copy_profile", "from": from, "to": to, "same": false, "method": methods_q[i % 2]}), Value::Null, rr.chance(1, 2)));
+    }
     // (c) profile copies inside one file-backed store
     for i in 0..(6 * mult) {
         let mut rr = r.fork();
